@@ -4,7 +4,7 @@
    _get_workdir and _check_stacked_deployments with explicit fuel).  Spec: Binding/Spec.v (flat list of
    bindings, no trie). *)
 From Coq Require Import List Bool NArith.
-From SF Require Import Base.Str Tags.Model Binding.Model Binding.Spec Binding.Proofs Binding.Corr.
+From SF Require Import Base.Str Tags.Model Binding.Model Binding.Spec Binding.Proofs Binding.Closed Binding.Corr.
 Import ListNotations.
 Local Open Scope string_scope. Local Open Scope list_scope.
 
@@ -16,6 +16,13 @@ Local Open Scope string_scope. Local Open Scope list_scope.
 Theorem C28_nearest : forall bs root name,
   build bs = Some root -> get_binding root name = nearest (map parse bs) (pparts name) None.
 Proof. exact get_binding_nearest. Qed.
+
+(* The same in closed form: among the step bindings whose (normalised) path is a prefix of the step's path,
+   the one with the longest path, and among equally long ones the one declared last ([best]); None (local
+   execution) when there is none.  Port bindings are not candidates. *)
+Theorem C28_nearest_closed : forall bs root name,
+  build bs = Some root -> get_binding root name = best (map parse bs) (pparts name).
+Proof. exact get_binding_best. Qed.
 
 (* the constructor accepts exactly the lists whose binding paths are all absolute *)
 Theorem C28_accepts_absolute : forall bs,
@@ -69,6 +76,7 @@ Proof.
 Qed.
 
 Print Assumptions C28_nearest.
+Print Assumptions C28_nearest_closed.
 Print Assumptions C28_accepts_absolute.
 Print Assumptions C28_set_targets_transparent.
 Print Assumptions C28_workdir.
